@@ -141,5 +141,26 @@ PROPS["C14"] = {
     "shrink": False,
 }
 
+PROPS["C08"] = {
+    "id": "C08",
+    "lean_modules": ["JT.Props.C08"],
+    "extractors": ["bittables", "addlen"],
+    "functional_ops": [],
+    "rule": ("0x0200 bodies = 28-byte base block (alarm/status words: single bits, pairs, all-but-one, random; BCD and non-BCD time nibbles) + 0..5 additional-information items (every standard id with every admissible length, "
+             "12% inadmissible lengths, unknown ids, duplicate ids); the same through 0x0704 batches of 1..3 items (10% with an announced count larger than the items present) and inside 0x0801; truncations; "
+             "EXHAUSTIVELY every (standard id, length in {0..8,29,30,31}) pair alone behind a base block; all 32 single bits and all pairs of the alarm and of the status word (thorough: all pairs of the extended vehicle word too). "
+             "non-trivial = decoded successfully with at least one item, or rejected."),
+    "technique": "Lean 4 proof over regenerated tables (go/ast extractor): flag ⇔ bit for every word, base-block round trip, item-list totality; differential correspondence + standard-layout oracle",
+    "level_text": ("Machine-checked Lean 4 theorems: the four flag decoders' tables, REGENERATED from the Go source on every run, equal the standard's tables (kernel `decide`), and from that, for EVERY word (not an enumeration of 2^32), each alarm flag, "
+                   "single-bit status flag, extended-vehicle signal and IO flag is set exactly when its standard bit is set; the admissible-length table extracted from contrastFunc equals the standard's; the 28-byte base block round-trips through the standard layout "
+                   "with arbitrary trailing bytes; the item loop never panics for any byte string, rejects impossible lengths, preserves unknown items verbatim and assigns the standard big-endian values. The model (using the regenerated tables) is compared with the Go decoders on every run, "
+                   "and the harness evaluates the Go decoders against its own reading of the standard for all three carrier messages."),
+    "level_note": "Trusted: Lean kernel; JT/Spec/Location.lean (reading of JT/T 808 tables 23-32); the go/ast extractors; `%.32b` + character test modelled as a bit test (validated by the tie); sampled correspondence; harness. The two-bit load field of the status word is outside C08.",
+    "trusted_base": [KERNEL, AXIOMS, TIE, HARNESS, "extractors harness/cmd/extract (go/ast): bit tables and admissible lengths regenerated into lean/JT/Gen on every run",
+                     "specification JT/Spec/Location.lean", "modelled rather than verified: fmt.Sprintf(\"%.32b\")[k]=='1' as a bit test; Go map of items as last-wins association list sorted by id"],
+    "assumptions": ["fresh receiver for every Parse (receiver reuse is C03)", "open finding D3-offset (item 0x11 area id) is excluded by its signature only"],
+    "shrink": True,
+}
+
 # properties that are not claimed, with the reason (anything not listed and not in PROPS gets a generic "not built yet")
 NOT_APPLICABLE = {}
